@@ -22,6 +22,7 @@ MANIFEST = {
     'note': 'Trusted: the public get_next_imf (C04) and frequency_transform (C09) used by the specification; numpy/scipy. Column count of mask_sift is C03\'s business; here every returned column and frequency is judged.',
     'technique': 'executable-specification monitor on the real masked sift + schedule-independence oracle with delay injection and per-process event logs',
 }
+LOGGER_ON_ODD_SHARDS = 'quarter'   # (sifting logs heavily: a quarter of the shards run with the logger set up)
 BUDGET_S = {'quick': 75, 'thorough': 480}
 NCASES = {'quick': 1600, 'thorough': 16000}
 RULE = ('seeded random signals (noise, walks, tones+trend, AM/FM; 100..400 samples) x {single masked extraction, full mask '
@@ -65,7 +66,9 @@ def gen_case(rng, kind):
         c['nphases'] = int(rng.integers(1, 9))
     else:
         c['mask_freqs'] = gens.pick(rng, ['zc', 'if', float(rng.uniform(.1, .4)),
-                                          [float(v) for v in np.sort(rng.uniform(.01, .45, 5))[::-1]]])
+                                          [float(v) for v in np.sort(rng.uniform(.01, .45, 5))[::-1]],
+                                          [float(v) for v in rng.uniform(.01, .45, 5)],          # the user's order, not sorted
+                                          tuple(float(v) for v in np.sort(rng.uniform(.01, .45, 5)))])
         c['mask_amp_mode'] = gens.pick(rng, ['abs', 'ratio_sig', 'ratio_imf'])
         c['max_imfs'] = int(rng.integers(1, 6))
         c['mask_amp'] = float(gens.pick(rng, [1, .5, 2, 0.0])) if rng.random() < .6 else rng.uniform(.2, 2, 5)
@@ -167,7 +170,7 @@ def check_mask_sift(ctx, tr, case):
         ctx.count('mask_sifts')
     imf, freqs = outs[case['nprocesses'][0]]
     freqs = np.asarray(freqs, dtype=float)
-    src = mf if isinstance(mf, str) else ('list' if isinstance(mf, list) else 'float')
+    src = mf if isinstance(mf, str) else ('list' if isinstance(mf, (list, tuple)) else 'float')
     ctx.count('freq_source:' + src)
     ctx.count('amp_mode:' + mode)
     ctx.count('amp_array' if not np.isscalar(ma) else 'amp_scalar')
